@@ -18,10 +18,11 @@ def rho_rest(amps, q, n):
     return {(a, b): z[a] * z[b].conjugate() + z[a + s] * z[b + s].conjugate() for a in idx for b in idx}
 
 def locality_direct(chk, rng, n_cases):
-    """statement-level check on the implementation alone: average of the two reset branches vs. the state before"""
+    """statement-level check on the implementation alone: the branch taken by reset follows the target's Born
+    probability (threshold at p1) and the p1-weighted average of the two branches has the reduced state of before"""
     vlib.repo_build("hooked")
     drv = vlib.cpp_driver("drv_sim")
-    scripts, meta = [], []
+    preps, meta = [], []
     for _ in range(n_cases):
         n = rng.randint(2, 5)
         s = ["A"] * n
@@ -32,42 +33,53 @@ def locality_direct(chk, rng, n_cases):
             else:
                 g = rng.choice(["H", "RY", "RX", "RZ", "X", "Y"])
                 s += [g, str(rng.randrange(n))] + ([sc.fnum(rng.choice(sc.ANGLES))] if g.startswith("R") else [])
-        q = rng.randrange(n)
-        scripts.append(s); scripts.append(s + ["R", str(q), "0.0"]); scripts.append(s + ["R", str(q), "0.999999999999"])
-        meta.append((n, q))
+        preps.append(s); meta.append((n, rng.randrange(n)))
     tmp = os.path.join(vlib.BUILD, "tmp", "c04-%d" % os.getpid())
     os.makedirs(tmp, exist_ok=True)
-    try:
+    def run_scripts(scripts):
         cf = os.path.join(tmp, "s.txt")
         open(cf, "w").write("".join("script " + " ".join(s) + "\n" for s in scripts))
         rc, out = vlib.sh([drv, cf], timeout=1800)
+        lines = out.splitlines()
+        if len(lines) != len(scripts):
+            chk.violation("c04-crash", {"script": " ".join(scripts[len(lines)]) if len(lines) < len(scripts) else ""}, "simulator driver died")
+            lines += ["nq 0 | amps | meas | trace | qasm -"] * (len(scripts) - len(lines))
+        return [sc.parse_model_line(l)["amps"] for l in lines]
+    bad = 0
+    try:
+        pres = run_scripts(preps)
+        scripts = []
+        p1s = []
+        for s, (n, q), pre in zip(preps, meta, pres):
+            p1 = sum(x * x + y * y for k, (x, y) in enumerate(pre) if (k >> q) & 1) if pre else 0.0
+            p1s.append(p1)
+            lo = max(p1 - 1e-6, 0.0); hi = min(p1 + 1e-6, 0.999999999999)
+            for d in (0.0, 0.999999999999, lo, hi):
+                scripts.append(s + ["R", str(q), repr(d)])
+        outs = run_scripts(scripts)
+        for i, ((n, q), pre, p1) in enumerate(zip(meta, pres, p1s)):
+            if not pre:
+                continue
+            b1, b0, blo, bhi = outs[4 * i: 4 * i + 4]
+            rp = rho_rest(pre, q, n)
+            r1, r0 = rho_rest(b1, q, n), rho_rest(b0, q, n)
+            if p1 < 1e-9 or p1 > 1 - 1e-9:
+                avg = {k: 0.5 * (r1[k] + r0[k]) for k in rp}      # only one branch exists; both draws select it
+            else:
+                avg = {k: p1 * r1[k] + (1 - p1) * r0[k] for k in rp}
+            err = max(abs(avg[k] - rp[k]) for k in rp)
+            left = max(abs(complex(*b[k])) for b in (b1, b0, blo, bhi) for k in range(1 << n) if (k >> q) & 1)
+            thr_ok = True
+            if 1e-5 < p1 < 1 - 1e-5:
+                thr_ok = sc.amps_close(b1, [list(x) for x in blo], 1e-9) and sc.amps_close(b0, [list(x) for x in bhi], 1e-9)
+            if err > 1e-9 or left > 1e-12 or not thr_ok:
+                bad += 1
+                chk.report("c04-locality", {"script": " ".join(preps[i]), "reset_qubit": q, "p1": p1, "max_deviation_of_reduced_state": err,
+                                            "amplitude_left_on_target_1": left, "branch_threshold_at_p1": thr_ok,
+                                            "how": "drv_sim on: script <script> R q d  for d in 0.0, 0.999999999999, p1-1e-6, p1+1e-6"},
+                           "reset is not local: reduced-state deviation %.3g, target residue %.3g, branch threshold at p1: %s" % (err, left, thr_ok))
     finally:
         shutil.rmtree(tmp, ignore_errors=True)
-    lines = out.splitlines()
-    bad = 0
-    for i, (n, q) in enumerate(meta):
-        if 3 * i + 2 >= len(lines):
-            chk.violation("c04-crash", {"script": " ".join(scripts[3 * i])}, "simulator driver died"); break
-        pre, b1, b0 = (sc.parse_model_line(lines[3 * i + j])["amps"] for j in range(3))
-        p1 = sum(x * x + y * y for k, (x, y) in enumerate(pre) if (k >> q) & 1)
-        rp, r1, r0 = rho_rest(pre, q, n), rho_rest(b1, q, n), rho_rest(b0, q, n)
-        # r = 0.0 selects branch 1 iff p1 > 0; r ~ 1 selects branch 0 iff p1 < 1
-        if p1 < 1e-12:
-            avg = r0 if True else None; avg = {k: r0[k] for k in rp}
-            # both draws select branch 0
-            avg = {k: 0.5 * (r1[k] + r0[k]) for k in rp}
-        elif p1 > 1 - 1e-12:
-            avg = {k: 0.5 * (r1[k] + r0[k]) for k in rp}
-        else:
-            avg = {k: p1 * r1[k] + (1 - p1) * r0[k] for k in rp}
-        err = max(abs(avg[k] - rp[k]) for k in rp)
-        left = max([abs(complex(*b1[k])) for k in range(1 << n) if (k >> q) & 1] + [abs(complex(*b0[k])) for k in range(1 << n) if (k >> q) & 1])
-        if err > 1e-9 or left > 1e-12:
-            bad += 1
-            chk.report("c04-locality", {"script": " ".join(scripts[3 * i]), "reset_qubit": q, "p1": p1, "max_deviation_of_reduced_state": err,
-                                        "amplitude_left_on_target_1": left,
-                                        "how": "drv_sim on: script <script> ; script <script> R q 0.0 ; script <script> R q 0.999999999999"},
-                       "reset changes the reduced state of the other qubits (deviation %.3g) or leaves the target outside |0>" % err)
     return len(meta), bad
 
 def run(chk):
